@@ -198,7 +198,7 @@ Fixpoint has_dup (l : list string) : bool :=
 (* SanityChecksTypeDefinitions : Ok true = no error *)
 Definition sanity_typedefs (D : tenv) : outcome bool :=
   if has_dup (map td_name D) then Ok false
-  else if negb (forallb (fun d => check_wf D (td_body d)) D) then Ok false
+  else if negb (forallb (fun d => check_wf D (td_body d) && mode_eqb (mode_of (td_body d)) (td_mode d)) D) then Ok false
   else
     (fix go (l : tenv) : outcome bool :=
        match l with
